@@ -222,6 +222,12 @@ func kindOfLog(k string) string {
 
 func (r *runner) fault(f faultIn) {
 	cb := r.cb
+	existed := map[int]bool{}
+	r.mu.Lock()
+	for _, s := range r.streams {
+		existed[s.label] = true
+	}
+	r.mu.Unlock()
 	logStart := len(cb.Log())
 	sessStart := len(cb.Sessions())
 	g0 := cb.Gens()
@@ -258,12 +264,19 @@ func (r *runner) fault(f faultIn) {
 		r.mu.Unlock()
 		cur.Link.Sever(memtr.Loud)
 		r.ev("ELinkDown", "EDetect")
-	case "midopen", "midmeta", "midcall":
-		kind := map[string]string{"midopen": "KOpenUp", "midmeta": "KMeta", "midcall": "KCall"}[f.Pos]
-		if f.Pos == "midopen" && f.Down {
+	case "midopen", "midmeta", "midcall", "dblopen", "dblmeta":
+		kind := map[string]string{"midopen": "KOpenUp", "midmeta": "KMeta", "midcall": "KCall", "dblopen": "KOpenUp", "dblmeta": "KMeta"}[f.Pos]
+		if (f.Pos == "midopen" || f.Pos == "dblopen") && f.Down {
 			kind = "KOpenDown"
 		}
-		cb.SeverOn(map[string]string{"midopen": "open", "midmeta": "meta", "midcall": "call"}[f.Pos])
+		bk := map[string]string{"midopen": "open", "midmeta": "meta", "midcall": "call", "dblopen": "open", "dblmeta": "meta"}[f.Pos]
+		if strings.HasPrefix(f.Pos, "dbl") {
+			// the request is cut, re-sent after the redial, and cut AGAIN before the answer (peer-side cut, or
+			// silent: only keepalive notices), re-sent after the second redial and answered
+			cb.SeverOnN(bk, 2, f.Silent)
+		} else {
+			cb.SeverOn(bk)
+		}
 		ms := 4000
 		if f.Pos == "midcall" {
 			ms = 400
@@ -343,7 +356,7 @@ func (r *runner) fault(f faultIn) {
 	cb.Disarm()
 
 	// ---- keep what the broker saw; the schedule is read off it once the streams have been used
-	fr := &faultRec{f: f, log: cb.Log()[logStart:], midcall: -1, inflight: map[int]bool{}}
+	fr := &faultRec{f: f, log: cb.Log()[logStart:], midcall: -1, inflight: map[int]bool{}, existed: existed}
 	for _, s := range cb.Sessions()[sessStart:] {
 		fr.sessGens = append(fr.sessGens, cb.GenOf(s.Idx))
 	}
@@ -351,7 +364,7 @@ func (r *runner) fault(f faultIn) {
 		fr.midcall = midcall.label
 	}
 	for _, p := range pend {
-		if strings.HasPrefix(f.Pos, "mid") && p != midcall {
+		if (strings.HasPrefix(f.Pos, "mid") || strings.HasPrefix(f.Pos, "dbl")) && p != midcall {
 			fr.inflight[p.label] = true
 		}
 	}
@@ -385,6 +398,7 @@ type faultRec struct {
 	sessGens []int
 	midcall  int
 	inflight map[int]bool
+	existed  map[int]bool // streams that were open when the fault began
 }
 
 // schedule reads the scheduler's decisions off the broker's log of one fault: which streams caught
@@ -437,6 +451,9 @@ func (r *runner) schedule(fr *faultRec, finals map[int]int) []string {
 	if f.Pos == "resume" && len(wins) >= 2 && len(wins[0].resumes) > 0 {
 		wins[0].severed = true
 	}
+	if strings.HasPrefix(f.Pos, "dbl") && len(wins) >= 2 {
+		wins[0].severed = true // the broker cut this incarnation at the re-sent request, while the streams were resuming
+	}
 	inflight := map[int]bool{}
 	for k := range fr.inflight {
 		inflight[k] = true
@@ -477,33 +494,31 @@ func (r *runner) schedule(fr *faultRec, finals map[int]int) []string {
 	resumesLater := func(label, wi int) bool { return lastGen[label] > wins[wi].gen }
 	var deferred []string // answers of resumes that were cut: they surface once the wire connection is closed
 	for wi, w := range wins {
-		if wi > 0 {
-			prev := wins[wi-1]
-			explained := false
-			if prev.severed {
-				explained = true
-			}
-			for lbl := range inflight {
-				if len(writes[lbl]) > 0 && writes[lbl][0] == w.gen {
-					explained = true
+		// requests whose exchange was cut and that are written again on this incarnation: the ones in flight
+		// when the fault began, and the ones re-sent on an incarnation that was cut again before the answer
+		var refails []int
+		for lbl, gs := range writes {
+			for k, g := range gs {
+				if g == w.gen && (k > 0 || inflight[lbl]) {
+					refails = append(refails, lbl)
 				}
 			}
-			if !explained {
-				// keepalive declared the new link dead (a pong later than 40 ms on a loaded machine)
+		}
+		sort.Ints(refails)
+		if wi > 0 {
+			prev := wins[wi-1]
+			if !prev.severed {
+				// the link of the previous incarnation died: cut by the script at a re-sent request, or
+				// declared dead by keepalive (a pong later than 40 ms on a loaded machine)
 				ev("ELinkDown", "EDetect")
-				r.unscripted++
+				if len(refails) == 0 {
+					r.unscripted++
+				}
 			}
 		}
-		var lbls []int
-		for lbl := range inflight {
-			lbls = append(lbls, lbl)
-		}
-		sort.Ints(lbls)
-		for _, lbl := range lbls {
-			if len(writes[lbl]) > 0 && writes[lbl][0] == w.gen {
-				ev(fmt.Sprintf("EFail %d", lbl))
-				delete(inflight, lbl)
-			}
+		for _, lbl := range refails {
+			ev(fmt.Sprintf("EFail %d", lbl))
+			delete(inflight, lbl)
 		}
 		ev("ELoop")
 		ev(deferred...)
@@ -522,7 +537,7 @@ func (r *runner) schedule(fr *faultRec, finals map[int]int) []string {
 			var ls []int
 			for l, fc := range finals {
 				_, wasRefused := cb.RefusedOn(l)
-				if fc == 2 && closedEv[l] == 2 && !wasRefused && !has[l] && !resumesLater(l, wi) && !lastCut(l) && !closeReached[l] {
+				if fc == 2 && fr.existed[l] && closedEv[l] == 2 && !wasRefused && !has[l] && !resumesLater(l, wi) && !lastCut(l) && !closeReached[l] {
 					if _, closedBefore := r.closedBefore[l]; !closedBefore {
 						ls = append(ls, l)
 					}
@@ -561,18 +576,19 @@ func (r *runner) schedule(fr *faultRec, finals map[int]int) []string {
 			}
 			ev(resp)
 		}
+		for _, x := range w.requests {
+			ev(fmt.Sprintf("EWake %d", x.Label))
+			gs := writes[x.Label]
+			if x.Label != fr.midcall && len(gs) > 0 && gs[len(gs)-1] == w.gen {
+				ev(fmt.Sprintf("EResp %d", x.Label)) // answered on the last incarnation it was written on
+			}
+		}
 		if w.severed {
 			ev("ELinkDown")
 			for _, l := range writeFailed {
 				ev(fmt.Sprintf("ESup %d", l))
 			}
 			ev("EDetect")
-		}
-		for _, x := range w.requests {
-			ev(fmt.Sprintf("EWake %d", x.Label))
-			if x.Label != fr.midcall {
-				ev(fmt.Sprintf("EResp %d", x.Label))
-			}
 		}
 	}
 	if len(deferred) > 0 {
@@ -870,7 +886,7 @@ func runCase(c *caseIn) (res result) {
 
 // ---------------------------------------------------------------- generators
 
-var positions = []string{"idle", "midopen", "midmeta", "midcall", "outopen", "outmeta", "outcall", "handshake", "resume", "refuse"}
+var positions = []string{"idle", "midopen", "midmeta", "midcall", "outopen", "outmeta", "outcall", "handshake", "resume", "refuse", "dblopen", "dblmeta"}
 
 func genRandom(r *rng.R) *caseIn {
 	c := &caseIn{Ups: r.Intn(3), Downs: r.Intn(3)}
@@ -962,7 +978,13 @@ func main() {
 							g.OpenAfter = true
 							jobs = append(jobs, job{&caseIn{Ups: sh[0], Downs: sh[1], Faults: []faultIn{g}}, "single-idle-open-after"})
 						}
-						if pos == "midopen" || pos == "outopen" {
+						if pos == "dblopen" || pos == "dblmeta" {
+							// second cut noticed by keepalive only
+							g := f
+							g.Silent = true
+							jobs = append(jobs, job{&caseIn{Ups: sh[0], Downs: sh[1], Faults: []faultIn{g}}, "single-" + pos})
+						}
+						if pos == "midopen" || pos == "outopen" || pos == "dblopen" {
 							// streams of BOTH directions are opened around the outage (written again on the new
 							// incarnation) and then used
 							g := f
